@@ -173,6 +173,7 @@ type FetchData struct {
 	HasFlags bool
 	Items    map[string]Node // upper-cased item name -> value
 	Order    []string
+	Dups     int
 }
 
 func ParseFetch(l *Line) (*FetchData, error) {
@@ -194,10 +195,17 @@ func ParseFetch(l *Line) (*FetchData, error) {
 		}
 		name := strings.ToUpper(items[i].Str)
 		if _, dup := fd.Items[name]; dup {
-			return nil, fmt.Errorf("duplicate FETCH item %s", name)
+			// gluon repeats FLAGS inside one FETCH response when the fetch itself set
+			// \Seen; RFC 3501 does not forbid it.  The last value wins for FLAGS, any
+			// other repeated item must repeat the same value.
+			fd.Dups++
+			if name != "FLAGS" && fd.Items[name].String() != items[i+1].String() {
+				return nil, fmt.Errorf("FETCH item %s given twice with different values", name)
+			}
+		} else {
+			fd.Order = append(fd.Order, name)
 		}
 		fd.Items[name] = items[i+1]
-		fd.Order = append(fd.Order, name)
 		switch name {
 		case "UID":
 			v, err := strconv.ParseUint(items[i+1].Str, 10, 32)
